@@ -38,6 +38,7 @@ RULE += (" Map-then-rest cases: a field mapping item (1:1, 1:n, self-keeping 1:n
 RULE += (" Map-chain cases: two field mapping items in a row (the second maps one of the targets of the first, possibly one-to-many) and the marker item conditioned on the application of one of them at detection-item or field-name level: every sibling produced by a one-to-many step carries the history of the item it came from and its own from then on.")
 RULE += (" Split cases: an item renamed by one item and then replaced by several new items (one-to-many mapping, hashes_fields, extract_fields): the replacing items answer detection-item conditions on earlier applications like the item they replace.")
 RULE += (" Post-processing cases: query post-processing items (embed, simple_template, template, json, replace, nest) with rule conditions on the application of the pre-processing item, of earlier post-processing items and of items inside an earlier nest item; the converted query text is compared with the items applied in order under those conditions.")
+RULE += (" Items with the windash modifier: value conditions see every dash variant as a string value of the item.")
 ASSUMPTIONS = [
     "an empty condition group holds whatever its linking / negation flag (an item without conditions always applies)",
     "detection items are generated without value modifiers other than fieldref, so value conditions see the source values",
@@ -192,6 +193,14 @@ def build_model(doc: dict, pre: list[dict]):
                 vals = val if isinstance(val, list) else [val]
                 if "fieldref" in mods:
                     values = [("ref", v) for v in vals]
+                elif "windash" in mods:
+                    # every dash variant is a string value of the item (value conditions look at all of them)
+                    import itertools
+                    values = []
+                    for v in vals:
+                        parts = re.split(r"\B[-/]\b", v)
+                        for combo in itertools.product(["-", "/", "\u2013", "\u2014", "\u2015"], repeat=len(parts) - 1):
+                            values.append(("plain", "".join(a + b for a, b in zip(parts, list(combo) + [""]))))
                 else:
                     values = [("plain", v) for v in vals]
                 items.append({"pos": (dname, mi, key), "field": field or None, "values": values, "applied": set()})
@@ -889,6 +898,8 @@ def docs(draw):
         for k in keys:
             if draw(st.integers(0, 4)) == 0:
                 m[k + "|fieldref"] = draw(st.sampled_from([["f"], "g", ["h", "f"], "zz"]))
+            elif draw(st.integers(0, 7)) == 0:
+                m[k + "|windash"] = draw(st.sampled_from(["-a", "b -x", "a*", ["-a", "Admin"]]))
             else:
                 m[k] = val()
         return m
